@@ -128,6 +128,22 @@ def cases_1d():
                 m["eqs"].append(("for", "i", num(1), None, num(mm), [("eq", idx("w", var("i")), ("bin", "*", num(3), idx("x", ie)))]))
                 yield ({"n": n, "m": mm, "d": d, "ctx": "for-index-arith", "kind": "loop"}, m, "ok" if inr else "reject",
                        "loop-index-arith:" + ("in-range" if inr else "below-1" if d < 0 else "above-n"))
+        # non-monotone / non-affine subscript expressions inside loops: every iteration counts
+        for mm in range(2, 5):
+            for a_ in range(0, 4):
+                for b_ in range(-1, 3):
+                    subs_ = [(i - a_) * (i - a_) + b_ for i in range(1, mm + 1)]
+                    inr = all(1 <= v <= n for v in subs_)
+                    m = {"name": "M", "vars": base_vars(n) + [vdecl("w", [mm])], "eqs": [], "ieqs": [], "funcs": []}
+                    d_ = ("bin", "-", var("i"), num(a_))
+                    ie = ("bin", "*", d_, d_)
+                    if b_ != 0:
+                        ie = ("bin", "+" if b_ > 0 else "-", ie, num(abs(b_)))
+                    m["eqs"].append(("for", "i", num(1), None, num(mm), [("eq", idx("w", var("i")), ("bin", "*", num(3), idx("x", ie)))]))
+                    cls_ = "in-range" if inr else ("below-1-in-the-middle" if (1 <= subs_[0] <= n and 1 <= subs_[-1] <= n and min(subs_) < 1)
+                                                   else "below-1" if min(subs_) < 1 else "above-n")
+                    yield ({"n": n, "m": mm, "a": a_, "b": b_, "ctx": "for-index-quadratic", "kind": "loop"}, m,
+                           "ok" if inr else "reject", "loop-index-quadratic:" + cls_)
     # subscripts on a scalar
     for form in ("rhs", "lhs", "slice", "two"):
         m = {"name": "M", "vars": base_vars(2), "eqs": [], "ieqs": [], "funcs": []}
@@ -163,6 +179,23 @@ def cases_2d():
                             cls = ("row-" if not 1 <= r <= n1 else "col-") + ("below-1" if (r < 1 or (1 <= r <= n1 and c < 1)) else "above-n")
                         yield ({"shape": [n1, n2], "r": r, "c": c, "ctx": ctx_name, "kind": "index2d"}, m,
                                "ok" if inr else "reject", "index2d:" + cls)
+            # inside a for-loop: loop variable in one position, constant subscript in the other
+            for c in range(-1, max(n1, n2) + 3):
+                ce = num(c) if c >= 0 else ("neg", num(-c))
+                for order in ("loop-first", "constant-first"):
+                    if order == "loop-first":
+                        inr = 1 <= c <= n2
+                        ref = idx("A", var("i"), ce)
+                        cnt = n1
+                    else:
+                        inr = 1 <= c <= n1
+                        ref = idx("A", ce, var("i"))
+                        cnt = n2
+                    m = {"name": "M", "vars": base_vars(0, (n1, n2)) + [vdecl("w", [cnt])], "eqs": [], "ieqs": [], "funcs": []}
+                    m["eqs"].append(("for", "i", num(1), None, num(cnt), [("eq", idx("w", var("i")), ("bin", "*", num(2), ref))]))
+                    lim = n2 if order == "loop-first" else n1
+                    yield ({"shape": [n1, n2], "c": c, "ctx": "for-2d-" + order, "kind": "loop2d"}, m, "ok" if inr else "reject",
+                           "loop2d:%s:%s" % (order, "in-range" if inr else "below-1" if c < 1 else "above-n"))
             # row/column slices
             for r in range(0, n1 + 2):
                 for a in range(-1, n2 + 3):
